@@ -25,7 +25,7 @@ def strategy(tp):
         "origin": st.sampled_from(["ok", "ok", "abort-fin", "abort-rst", "stall", "stall-mid", "no-response"]),
         "origin_at": st.integers(0, 999),
         "post_len": st.sampled_from([0, 10, 5000, 100000]),
-        "post_sent": st.integers(0, 1000),                 # permille of the request body actually sent
+        "post_sent": st.one_of(st.just(1000), st.just(1000), st.integers(0, 1000)),                 # permille of the request body actually sent
     })
     return st.fixed_dictionaries({
         "txns": st.lists(txn, min_size=3, max_size=int(tp.get("max_txns", 14))),
